@@ -121,6 +121,20 @@ func run(t *rapid.T, deterministic bool) {
 			if hasExpunge(r) {
 				fail(s, "EXPUNGE response sent during %q", r.Cmd)
 			}
+
+		case "move", "noop", "check", "expunge":
+			// (3) every removal is announced by the next command that permits it: with the gate closed nothing new
+			// reaches the session between two of its commands, so a NOOP right behind such a command (answered OK) has
+			// no removal left to announce. (A MOVE / EXPUNGE announces its own removals itself.)
+			if deterministic && s.Selected != "" && !s.Dead && r.OK() && rapid.IntRange(0, 2).Draw(t, "followUp") == 0 {
+				n := s.Do("NOOP")
+				if n.OK() && hasExpunge(n) {
+					fail(s, "%q permits EXPUNGE responses, yet it left removals unannounced: the NOOP right behind it (nothing was released to the session in between) sent EXPUNGE", r.Cmd)
+					return
+				}
+
+				w.Label("followup-noop-after-" + kind)
+			}
 		}
 	}
 
